@@ -398,8 +398,73 @@ def run_cases(ctx, n):
                 pass
 
 
+def _st_sim(t, batch_size=1, random_state=None):
+    return np.column_stack([t + random_state.randn(batch_size), 10 * t + 5 * random_state.randn(batch_size)])
+
+
+def _st_col0(y):
+    return y[:, 0]
+
+
+def _st_col1(y):
+    return y[:, 1]
+
+
+def check_stateful_saveload(ctx):
+    """save / load (and copy, then save / load) of a model whose nodes carry STATE that refers back to node objects: an
+    AdaptiveDistance that has been through adaptation rounds (its operation is a bound method of the node reference, its state
+    holds the scales and the nested distance functions).  The loaded model has the same structure and generates the same
+    seeded outputs, the adapted scales included; saving does not alter the original."""
+    rng = ctx.rng
+    tmp = tempfile.mkdtemp(prefix='c14s-')
+    try:
+        for it in range(3 if ctx.quick() else 12):
+            k, rounds = 1 + it % 2, 1 + (it // 2) % 2
+            seed = rng.randrange(2 ** 31)
+            m = elfi.ElfiModel(name='st%d' % it)
+            t = elfi.Prior('uniform', 0, 2, model=m, name='t')
+            Y = elfi.Simulator(_st_sim, t, model=m, name='Y', observed=np.array([[1.0, 10.0]]))
+            S = [elfi.Summary([_st_col0, _st_col1][j], Y, model=m, name='S%d' % j) for j in range(k)]
+            elfi.Distance('euclidean', *S, model=m, name='d')
+            m['d'].become(elfi.AdaptiveDistance(*[m['S%d' % j] for j in range(k)], model=m))
+            m['d'].init_state()
+            for r in range(rounds):
+                m['d'].init_adaptation_round()
+                data = m.generate(10 + 5 * r, ['S%d' % j for j in range(k)], seed=seed + r)
+                m['d'].add_data(*[data['S%d' % j] for j in range(k)])
+                m['d'].update_distance()
+            case = dict(kind='stateful-saveload', n_summaries=k, adaptation_rounds=rounds, seed=seed)
+            ctx.case(case, True)
+            ctx.count('stateful_saveload.rounds', rounds)
+            before = m.generate(6, seed=seed)
+            for label, src in (('the model', m), ('a copy of the model', m.copy())):
+                src.name = 'st%d%s' % (it, 'c' if src is not m else '')
+                try:
+                    src.save(prefix=tmp)
+                    loaded = elfi.load_model(src.name, prefix=tmp)
+                    after = loaded.generate(6, seed=seed)
+                except Exception as e:            # noqa
+                    ctx.fail_input(case, 'save / load / generate of %s with an adapted AdaptiveDistance raised %s: %s' % (label, type(e).__name__, str(e)[:100]))
+                    break
+                if sorted(loaded.nodes) != sorted(m.nodes) or any(loaded.get_parents(n) != m.get_parents(n) for n in m.nodes) \
+                        or loaded.parameter_names != m.parameter_names:
+                    ctx.fail_input(case, 'structure of %s differs after save / load' % label)
+                    break
+                bad = [key for key in before if not np.array_equal(np.asarray(before[key]), np.asarray(after.get(key)))]
+                if bad:
+                    ctx.fail_input(case, 'seeded outputs %s of %s differ after save / load (adapted distance state)' % (bad, label),
+                                   {key: np.asarray(before[key]).tolist() for key in bad}, {key: np.asarray(after.get(key)).tolist() for key in bad})
+                    break
+            again = m.generate(6, seed=seed)
+            if any(not np.array_equal(np.asarray(before[key]), np.asarray(again[key])) for key in before):
+                ctx.fail_input(case, 'saving altered the original model: its seeded outputs changed')
+    finally:
+        shutil.rmtree(tmp, ignore_errors=True)
+
+
 def run(ctx):
     run_cases(ctx, ctx.budget(150, 3000))
+    check_stateful_saveload(ctx)
 
 
 def search(ctx):
